@@ -568,10 +568,14 @@ impl ActivePeers {
     }
 
     fn inner(&self) -> std::sync::RwLockReadGuard<'_, ActivePeersInner> {
+        #[cfg(bmwill_anemo_verif)]
+        crate::verif::sched_point("active-peers");
         self.0.read().unwrap()
     }
 
     fn inner_mut(&self) -> std::sync::RwLockWriteGuard<'_, ActivePeersInner> {
+        #[cfg(bmwill_anemo_verif)]
+        crate::verif::sched_point("active-peers");
         self.0.write().unwrap()
     }
 
